@@ -293,7 +293,7 @@ static Boolean ChkSAddr2(LongWord Addr, Byte* pShortAddr) {
         *pShortAddr = Addr & 0x1f;
         return True;
     } else if (((Addr & 0xffff00) == Start2) && (Lo(Addr) >= 0x20)) {
-        *pShortAddr = Addr & 0x1f;
+        *pShortAddr = Addr & 0xff;
         return True;
     } else {
         return False;
